@@ -1344,3 +1344,7 @@ mod tests {
                   // no Reliable QoS
   }
 }
+
+#[cfg(rustdds_verif)]
+#[path = "/verif/harness/incrate/access/datawriter.rs"]
+mod verif_access;
